@@ -97,4 +97,41 @@ ProviderRule(Certs, chain, latest, pred, hasPred, now) ==
     ELSE IF hasPred /\ ChainOK(Certs, chain, pred, now) THEN "only-predecessor-verifies-outside-grace"
     ELSE "no-active-trc-verifies:" \o ChainRule(Certs, chain, latest, now)
 ProviderOK(Certs, chain, latest, pred, hasPred, now) == ProviderRule(Certs, chain, latest, pred, hasPred, now) = ""
+-----------------------------------------------------------------------------
+(* C36: generated signers.  AS certificates carry a field key (which private key they certify).
+   A generated signer is [key, chain, ingrace, exp]; chains is the set of chains in the store,
+   keys the key ring.  From the statement:
+     - the key is authenticated by a chain that verifies against the active (latest, valid) TRC, or,
+       only if no chain of that key does, against the predecessor during the grace period;
+     - among such chains the latest-expiring one;
+     - expiry = min(chain expiry, TRC validity); in grace also bounded by the grace-period end and the
+       predecessor's validity (weak reading: the bound by the latest TRC's own validity may be left
+       out in grace -- it only differs if the grace period outlasts the TRC that announces it).   *)
+Min2(a, b) == IF a <= b THEN a ELSE b
+ChainKey(Certs, ch) == Certs[ch[1]].key
+ChainExp(Certs, ch) == Certs[ch[1]].na
+UsableVia(Certs, chains, key, trc, now) ==
+    {ch \in chains : ChainKey(Certs, ch) = key /\ ChainStrict(Certs, ch, trc, now)}
+
+SignerRule(Certs, chains, keys, latest, pred, hasPred, now, s) ==
+    IF ~(latest.nb <= now /\ now <= latest.na) THEN "latest-trc-not-valid"
+    ELSE IF s.key \notin keys THEN "key-not-in-ring"
+    ELSE IF s.chain \notin chains THEN "chain-not-in-store"
+    ELSE IF ChainKey(Certs, s.chain) # s.key THEN "chain-authenticates-other-key"
+    ELSE LET A == UsableVia(Certs, chains, s.key, latest, now)
+             G == IF hasPred /\ InGrace(latest, now) THEN UsableVia(Certs, chains, s.key, pred, now) ELSE {}
+             e == ChainExp(Certs, s.chain) IN
+         IF A # {} THEN
+            IF s.ingrace THEN "grace-although-active-trc-verifies-a-chain"
+            ELSE IF s.chain \notin A THEN "chain-does-not-verify-against-active-trc"
+            ELSE IF \E c \in A : ChainExp(Certs, c) > e THEN "not-latest-expiring-chain"
+            ELSE IF s.exp # Min2(e, latest.na) THEN "expiry-not-min-of-chain-and-trc"
+            ELSE ""
+         ELSE IF s.chain \notin G THEN "chain-verifies-against-no-active-trc"
+         ELSE IF ~s.ingrace THEN "grace-flag-missing"
+         ELSE IF \E c \in G : ChainExp(Certs, c) > e THEN "not-latest-expiring-chain"
+         ELSE IF s.exp \notin {Min2(Min2(e, latest.nb + latest.grace), pred.na),
+                              Min2(Min2(Min2(e, latest.nb + latest.grace), pred.na), latest.na)}
+              THEN "grace-expiry-not-min-of-chain-grace-end-predecessor"
+         ELSE ""
 =============================================================================
